@@ -662,8 +662,8 @@ def rule_exact_finish(ctx, rule='R09.11'):
     anchor(fn is not None, 'Simulationarchive.getSimulation')
     # the synchronise + shortened step in reb_check_exit, and the switches the synchronise routines honour
     tu = cfront.load_tu('rebound.c')
-    ce = tu.func('reb_check_exit')
-    short = [e for e in walk(cfront.body(ce)) if cfront.is_assign(e) and render(e['inner'][0]) == 'r.dt']
+    from .. import normal
+    short = [e for ce in normal.with_new_helpers(tu, 'reb_check_exit') for e in walk(cfront.body(ce)) if cfront.is_assign(e) and render(e['inner'][0]) == 'r.dt']
     anchor(short, 'reb_check_exit shortens r->dt for exact_finish_time')
     # the accepted modes: every string the parameter `mode` is compared with, directly or through a named list/dict
     named = {}
